@@ -76,16 +76,25 @@ def output_important(node: CSSProperty, out: OutputStream, separator=False):
 
 
 def output_value(value: CSSValue, out: OutputStream, config: Config):
-    prev_end = -1
+    prev = None
     for i, token in enumerate(value.value):
-        # Handle edge case: a field is written close to previous token like this: `foo${bar}`.
+        # Handle edge case: a field is written close to its neighbour like this: `foo${bar}`, `${bar}foo`.
         # We should not add delimiter here
-
-        if i != 0 and (not isinstance(token, tokens.Field) or token.start != prev_end):
+        if i != 0 and not (is_adjacent(prev, token) and (is_field(prev) or is_field(token))):
             out.push(' ')
 
         output_token(token, out, config)
-        prev_end = token.end if hasattr(token, 'end') else -1
+        prev = token
+
+
+def is_field(token):
+    return isinstance(token, tokens.Field)
+
+
+def is_adjacent(prev, token):
+    "Check if `token` was written right after `prev` in source (tokens created in code have no location)"
+    prev_end = getattr(prev, 'end', None)
+    return prev_end is not None and getattr(token, 'start', None) == prev_end
 
 def output_token(token, out: OutputStream, config: Config):
     if isinstance(token, tokens.ColorValue):
